@@ -671,7 +671,18 @@ func (w *WalletManager) signWitnessTx(password []byte, tx *wire.MsgTx, hashType 
 		}
 
 		scriptFlags := txscript.StandardVerifyFlags
-		if forks.EnforceMASSIP0002WarmUp(cacheMeta[txIn.PreviousOutPoint.Hash].Height) {
+		var prevHeight uint64
+		if meta := cacheMeta[txIn.PreviousOutPoint.Hash]; meta != nil {
+			prevHeight = meta.Height
+		} else {
+			// previous transaction is still unconfirmed: it can only be mined above the tip
+			syncHeight, err := w.SyncedTo()
+			if err != nil {
+				return err
+			}
+			prevHeight = syncHeight + 1
+		}
+		if forks.EnforceMASSIP0002WarmUp(prevHeight) {
 			scriptFlags |= txscript.ScriptMASSip2
 		}
 		// Either it was already signed or we just signed it.
